@@ -35,22 +35,23 @@ Peel(x) == LET S == BitSetOfLimbs(x) \cap CardBits IN
            IF S = {} THEN [card |-> ZeroLimbs, rest |-> x]
            ELSE LET b == SetMax(S) IN [card |-> LimbsOfBit(b), rest |-> LXor(x, LimbsOfBit(b))]
 
-(* Two::try_from(BinaryCard) as the code does it.                          *)
+(* Two::try_from(BinaryCard) as the code does it: [kind, cards].           *)
 TwoFromBits(x) ==
     LET n == Count(x) IN
-    IF n <= 1 THEN "NotEnoughCards"
+    IF n <= 1 THEN [kind |-> "NotEnoughCards", cards |-> <<>>]
     ELSE IF n = 2 THEN
          LET p1 == Peel(x)
              p2 == Peel(p1.rest)
              a == ToCkc(p1.card)
              b == ToCkc(p2.card) IN
-         IF a # b /\ IsCardWord(a) /\ IsCardWord(b) THEN <<a, b>> ELSE "InvalidBinaryFormat"
-    ELSE "TooManyCards"
+         IF a # b /\ IsCardWord(a) /\ IsCardWord(b) THEN [kind |-> "ok", cards |-> <<a, b>>]
+         ELSE [kind |-> "InvalidBinaryFormat", cards |-> <<>>]
+    ELSE [kind |-> "TooManyCards", cards |-> <<>>]
 (* and as C16 states it                                                    *)
 TwoFromBitsSpec(x) ==
     LET S == BitSetOfLimbs(x) IN
-    IF Cardinality(S) < 2 THEN "NotEnoughCards"
-    ELSE IF Cardinality(S) > 2 THEN "TooManyCards"
-    ELSE IF S \subseteq CardBits THEN <<WordOfBit(SetMax(S)), WordOfBit(SetMin(S))>>
-    ELSE "InvalidBinaryFormat"
+    IF Cardinality(S) < 2 THEN [kind |-> "NotEnoughCards", cards |-> <<>>]
+    ELSE IF Cardinality(S) > 2 THEN [kind |-> "TooManyCards", cards |-> <<>>]
+    ELSE IF S \subseteq CardBits THEN [kind |-> "ok", cards |-> <<WordOfBit(SetMax(S)), WordOfBit(SetMin(S))>>]
+    ELSE [kind |-> "InvalidBinaryFormat", cards |-> <<>>]
 =============================================================================
